@@ -1,6 +1,7 @@
 package main
 
 import (
+	"io"
 	"time"
 	"context"
 	"fmt"
@@ -291,6 +292,25 @@ func suiteC14(r *Run) {
 			if rdName == "recording" && (!rendererRan || rendererCtxErr != nil) {
 				r.Violate("http-unary/renderer/ctx-not-request-ctx", "the renderer is given the request's context (the 499 rule is about the request itself being cancelled)",
 					sprintf("custom renderer ran=%v with ctx.Err()=%v while the request context was live", rendererRan, rendererCtxErr), caseDesc, sprintf("%d", httpStatus))
+			}
+		}
+	}
+
+	// --- e2e: the code travels in the status header: a fault in the BODY of an error reply (reset, short
+	// body) does not take it away from the caller
+	for c := uint32(1); c <= 17; c++ {
+		for _, endErr := range []error{errAbrupt, io.ErrUnexpectedEOF} {
+			u, _ := url.Parse("http://mem.test/")
+			hdr := http.Header{"X-Grpc-Status": []string{sprintf("%d:body fault", c)}, "Content-Length": []string{"100"}}
+			ch := &httpgrpc.Channel{Transport: &replayTransport{code: httpgrpc.VerifHttpStatusFromCode(codes.Code(c)), hdr: hdr, body: []byte("short"), endErr: endErr}, BaseURL: u}
+			err := ch.Invoke(context.Background(), mUnary, &Msg{}, &Msg{})
+			r.Eval(sprintf("e2e-body-fault %d %v", c, endErr), true)
+			r.Count("e2e:body-fault")
+			r.TracesOnImpl++
+			if got := status.Code(err); uint32(got) != c {
+				r.Violate("http-unary/client-code/body-fault", "the caller recovers exactly the original code rather than the HTTP approximation",
+					sprintf("error reply with status header code %d whose body fails (%v): Invoke returned %v (code %d)", c, endErr, err, uint32(got)),
+					map[string]interface{}{"op": "e2e-body-fault", "code": c, "body_error": endErr.Error()}, canonErr(err))
 			}
 		}
 	}
